@@ -22,7 +22,9 @@ pub struct ThreadSpec {
 pub struct Case {
     pub threads: Vec<ThreadSpec>,
     /// 0 fresh resource, 1 existing resource touched in the same bucket, 2 existing resource whose
-    /// current ring slot still holds an old bucket (the first writers race with the slot's roll-over)
+    /// current ring slot still holds an old bucket (the first writers race with the slot's roll-over), 3 the same with the
+    /// clock standing exactly on the bucket boundary exactly one ring lap (10 s) after that old bucket began, 4 one lap
+    /// later inside the bucket
     pub existing_resource: u8,
     /// a pseudo thread that moves the clock into the next bucket when it is scheduled
     pub clock_step: bool,
@@ -40,6 +42,8 @@ pub fn decode(u: &mut Bytes) -> Case {
     let existing_resource = [0u8, 0, 1, 2][u.choice(4)];
     let clock_step = u.choice(4) == 3;
     let schedule = decode_schedule(u, 5, 120);
+    // added later (from the tail): the stale slot exactly one ring lap old
+    let existing_resource = if existing_resource == 2 { [2u8, 3, 4][u.tail_choice(3)] } else { existing_resource };
     Case { threads, existing_resource, clock_step, schedule }
 }
 
@@ -69,13 +73,14 @@ pub fn execute(case: &Case, schedule: &[(u32, u8)], bytes_hex: &str) -> Result<O
     if case.existing_resource > 0 {
         let e = build(Req::new(&res, 1)).map_err(|m| ("setup-blocked".to_string(), m))?;
         e.exit();
-        if case.existing_resource == 2 {
-            clock::set_ms(t0 + 20_000);
-        } else {
-            pre = 1;
+        match case.existing_resource {
+            2 => clock::set_ms(t0 + 20_000),
+            3 => clock::set_ms(t0 / 500 * 500 + 10_000),
+            4 => clock::set_ms(t0 + 10_000),
+            _ => pre = 1,
         }
     }
-    let rollover_race = case.clock_step || case.existing_resource == 2;
+    let rollover_race = case.clock_step || case.existing_resource >= 2;
     let t0 = clock::now_ms();
     let inbound = stat::inbound_node();
     let inb_conc0 = inbound.current_concurrency();
@@ -150,9 +155,11 @@ pub fn execute(case: &Case, schedule: &[(u32, u8)], bytes_hex: &str) -> Result<O
     let pass = long.sum(MetricEvent::Pass);
     let comp = long.sum(MetricEvent::Complete);
     let (pass, comp) = (pass - pre.min(pass), comp - pre.min(comp));
-    if !rollover_race {
+    // events may be lost only if they RACED with a roll-over: when no preemption switched threads the operations of the
+    // threads did not overlap, and the totals are exact whatever the slot held before
+    if !rollover_race || info.effective_preemptions == 0 {
         if pass != o.passed_tokens || comp != o.completed_tokens {
-            return Err(("totals-mismatch".into(), format!("node totals pass {} complete {} but the threads passed {} and completed {} tokens within one bucket (schedule {:?})", pass, comp, o.passed_tokens, o.completed_tokens, schedule)));
+            return Err(("totals-mismatch".into(), format!("node totals pass {} complete {} but the threads passed {} and completed {} tokens (within one bucket, or without any two operations overlapping) (schedule {:?})", pass, comp, o.passed_tokens, o.completed_tokens, schedule)));
         }
     } else if pass > o.passed_tokens || comp > o.completed_tokens {
         return Err(("totals-exceed-recorded".into(), format!("node totals pass {} complete {} exceed what was recorded ({} / {}) (schedule {:?})", pass, comp, o.passed_tokens, o.completed_tokens, schedule)));
@@ -188,7 +195,7 @@ impl Property for C14 {
         true
     }
     fn rule(&self) -> String {
-        "bytes -> 2-3 threads x 1-2 build/exit pairs (batch 1..3, some entries left un-exited) on one fresh (or already existing) resource, inbound or outbound, clock fixed inside a bucket or moved into the next bucket by a pseudo thread, and a schedule of up to 5 preemptions (global schedule point, choice among the other runnable threads) for the cooperative scheduler that owns every std::sync operation of sentinel-core; plus (coverage.extra) exhaustive enumeration of all schedules with <= k preemptions (k = 2 quick, 3 thorough) for the 2-thread fresh-resource scenario; oracle after join: every entry's stat node is the registered node (Arc::ptr_eq), in-flight = un-exited entries, pass / complete totals equal the sums when the clock is fixed and never exceed them across a roll-over, inbound in-flight delta = un-exited inbound entries; non-trivial = at least one preemption of the schedule actually switched threads; distinct = distinct (scenario, schedule)".into()
+        "bytes -> 2-3 threads x 1-2 build/exit pairs (batch 1..3, some entries left un-exited) on one fresh (or already existing) resource, inbound or outbound, clock fixed inside a bucket or moved into the next bucket by a pseudo thread, and a schedule of up to 5 preemptions (global schedule point, choice among the other runnable threads) for the cooperative scheduler that owns every std::sync operation of sentinel-core; plus (coverage.extra) exhaustive enumeration of all schedules with <= k preemptions (k = 2 quick, 3 thorough) for the 2-thread fresh-resource scenario; oracle after join: every entry's stat node is the registered node (Arc::ptr_eq), in-flight = un-exited entries, pass / complete totals equal the sums when the clock is fixed or when no preemption made operations overlap (also into a slot that holds a bucket 20 s old, exactly one ring lap old on the bucket boundary, or one lap old) and never exceed them across a roll-over, inbound in-flight delta = un-exited inbound entries; non-trivial = at least one preemption of the schedule actually switched threads; distinct = distinct (scenario, schedule)".into()
     }
     fn assumptions(&self) -> Vec<String> {
         vec![
@@ -219,7 +226,7 @@ impl C14 {
         match execute(&case, &case.schedule, hex) {
             Err((clause, detail)) => Verdict::Fail(Failure { clause: clause.clone(), key: format!("C14|{}", clause), detail, decoded: serde_json::to_value(&case).unwrap() }),
             Ok(o) => {
-                let mut classes = vec![["fresh-resource", "existing-resource", "existing-resource-stale-slot"][case.existing_resource as usize]];
+                let mut classes = vec![["fresh-resource", "existing-resource", "existing-resource-stale-slot", "existing-resource-slot-exactly-one-lap-old-on-boundary", "existing-resource-slot-one-lap-old"][case.existing_resource as usize]];
                 if case.clock_step { classes.push("clock-step"); }
                 if o.info.preempted_holding_lock > 0 { classes.push("preempted-while-holding-a-lock"); }
                 Verdict::Pass(CaseReport {
